@@ -123,7 +123,12 @@ func HarnessPrecedence(src int) {
 	vh.Assert("C20/set-defaults-succeeds", config.SetDefaults("v0.0.0", vh.Logger()) == nil)
 	def := config.GetDefaultAppConfig()
 	if src&2 != 0 {
+		// the selected file: some name in the working directory, or a file called like the default
+		// (config.yaml) but in another directory
 		path := vhdb.TempRelPath(".yaml")
+		if vh.Choose(2) == 1 {
+			path = vhcfg.TempDir() + "/" + config.DefaultConfigFilePath
+		}
 		vhcfg.WriteYAML(path, l.Key, vFile)
 		viper.Set(config.ConfigFilePathKey, path) // what the -C / --config_file option binds
 	}
